@@ -545,5 +545,5 @@ def build_extra():
     c07 = C07.build()
     c07.pid = "C13b"
     c07.replay_pid = "C07"
-    c07.only_verify = ["Mode.stop"]
+    c07.only_verify = ["Mode.stop", "Mode._control_event_handler"]
     return [c07]
